@@ -1244,11 +1244,12 @@ expr0:
                     p = strput(p, end, ".");
                     yyerror(buf);
                 }
-                /* x == 0 -> !x */
-                if (IS_NODE($1, NODE_NUMBER, 0)) {
+                /* x == 0 -> !x, unless x may be a float: 0.0 == 0 is true, but !0.0 is 0 */
+#define MAY_BE_REAL(t) ((t) == TYPE_REAL || (t) == TYPE_ANY || (t) == TYPE_UNKNOWN)
+                if (IS_NODE($1, NODE_NUMBER, 0) && !MAY_BE_REAL($3->type)) {
                     CREATE_UNARY_OP($$, F_NOT, TYPE_NUMBER, $3);
                 } else
-                if (IS_NODE($3, NODE_NUMBER, 0)) {
+                if (IS_NODE($3, NODE_NUMBER, 0) && !MAY_BE_REAL($1->type)) {
                     CREATE_UNARY_OP($$, F_NOT, TYPE_NUMBER, $1);
                 } else {
                     CREATE_BINARY_OP($$, F_EQ, TYPE_NUMBER, $1, $3);
